@@ -20,7 +20,7 @@ E1 = "E1 simrt: generated C + w2c2_base.h + futex/*.c under the simcore baton sc
 CHECKS = {
  "C05": dict(engine="simrt", cat="exploration", tech="deterministic simulation: seeded operation histories with injected allocation failures, checked op-by-op against a byte-array reference model",
    text="Seeded histories (20-120 ops) of every load/store flavour, 18 composite functions (store; store of another type or width; load at one address), size, grow (incl. limits and wrap-around deltas, injected realloc failure), copy/fill/init on the real generated code; after every operation results, page count and the whole memory are compared with a byte-array model. Exploration of the history/fault half of the property over one generated module family, not translation validation of arbitrary programs.",
-   note="only in-bounds accesses are generated; model is little-endian byte array; two generated modules (mem: non-shared 1..8 pages with passive segments, built four ways; atom: shared memory 1..6 pages, two builds); fresh heap memory is pre-filled with 0xBE so zeroing has to be done by the code under test; four builds: instrumented clang -O1 with array and gnu-ld data embedding, plain gcc -O2, plain clang -O3", ref="5/C05"),
+   note="only in-bounds accesses are generated; model is little-endian byte array; three generated modules (mem: non-shared 1..8 pages with passive and zero-tailed overlapping active segments, built four ways; atom: shared memory 1..6 pages; memnomax: no declared maximum, grown to the 65535/65536-page boundary); fresh heap memory is pre-filled with 0xBE so zeroing has to be done by the code under test; four builds: instrumented clang -O1 with array and gnu-ld data embedding, plain gcc -O2, plain clang -O3", ref="5/C05"),
  "C16": dict(engine="simrt", cat="exploration", tech="deterministic simulation: seeded schedules (random walk + PCT) over parked real threads, linearizability / sequential-consistency check of atomic-op histories per 8-byte word and jointly over all touched words; happens-before data-race detector over the accessed cells (little-endian build); x86-TSO store-buffer model for accesses weaker than seq_cst",
    text="2-4 simulated threads of one shared-memory instance family execute seeded mixes of all 63 atomic opcodes (two static offsets, mixed widths on hot words, operands with bits above the access width); every history is checked for linearizability against a byte-array register specification including the final memory. Runs on the native little-endian build (builtins, indivisible steps; two modules: shared memory defined / imported), on the forced big-endian build whose RMWs are mutex-based sequences that really interleave, and on the big-endian build with the header's portable byte-swap macros.",
    note="interleavings of indivisible atomic steps plus delayed stores (TSO store buffer) for any access whose memory order is weaker than seq_cst; load reordering / non-multi-copy-atomic hardware not modelled; histories <= 28 ops; search budget 1e6 states (over-budget = unchecked, never a violation)", ref="5/C16"),
@@ -28,7 +28,7 @@ CHECKS = {
    text="2-5 simulated threads run seeded wait32/wait64/notify/value-change operations (static offset 0 and non-zero, colliding hash buckets, timeouts -1/0/us/ms/s and values near 2^63 ns; waits whose allocations fail) under every lock/cond/load/store interleaving the scheduler draws, with spurious wake-ups and timer-vs-notify races; black-box rules on invoke/return events decide return codes, counts, no-lost-wake-up (incl. atomic check-and-enqueue), cross-address isolation and termination; ASan guards lifetimes.",
    note="POSIX cond semantics as simulated (any waiter may be signalled, spurious wake-ups legal); realtime clock does not jump during waits", ref="5/C17"),
  "C18": dict(engine="simrt", cat="exploration", tech="deterministic simulation: seeded schedules with load/store-granular preemption; linearizability of grow/size histories against a bounded counter + vector-clock race detector on the memory descriptor",
-   text="2-4 simulated threads grow/query/touch one shared memory; each history must be linearizable w.r.t. a bounded page counter (distinct old sizes, failed grows change nothing, final size = initial + successful deltas <= max), touched bytes of observed pages must hold, and a FastTrack-style happens-before detector fed by the instrumentation callbacks must see no unordered conflicting accesses to data/size/pages/maxPages.",
+   text="2-4 simulated threads grow/query/touch/fill/copy/wait on one shared memory, on the little-endian build and on the forced big-endian build (every atomic path goes through the memory mutex there); each history must be linearizable w.r.t. a bounded page counter (distinct old sizes, failed grows change nothing, final size = initial + successful deltas <= max), touched bytes of observed pages must hold, and a FastTrack-style happens-before detector fed by the instrumentation callbacks must see no unordered conflicting accesses to data/size/pages/maxPages.",
    note="sequentially consistent interleavings; race detector only sees instrumented code (generated C, w2c2_base.h inlines, futex)", ref="5/C18"),
  "C19": dict(engine="simrt", cat="exploration", tech="deterministic simulation on the forced big-endian build: seeded load/store/bulk/atomic histories against the byte-reversed reference model, atomic histories also under seeded schedules",
    text="The E1 workloads of C05, C16 and C17 (wait/notify, judged by the futex rules) run on a build with WASM_ENDIAN forced to big-endian (bswap builtins and the header's portable swap macros), and the WASI-host workloads of C12-C15 run on a build where module, wasi.c and the harness' guest-memory accessors are the byte-reversing ones; the model stores every 16/32/64-bit access byte-reversed and 8-bit/bulk accesses unreversed, so a wrong-width, doubled or missing swap changes bytes or results. Runtime half of the property only.",
@@ -36,18 +36,18 @@ CHECKS = {
 }
 
 CHECKS["C06"] = dict(engine="siminst", cat="exploration", tech="deterministic simulation: seeded interleavings (at operation boundaries) of instantiations and calls on 1-4 live instances of seeded module variants, per-instance / per-object reference model compared after every operation",
-   text="Eight (thorough: 32) seeded variants of a generated module family - defined, imported or shared memory; defined or imported table; imported globals used as segment offsets and initialisers; overlapping, zero-length, last-byte and all-zero active data segments; a passive segment; element segments; optional start function with a host call - are translated by the current translator. Client tasks instantiate them (into zeroed or garbage-filled structs, as children of live instances, or again into the same struct after FreeInstance against other resolver objects) on own or shared resolver objects and call exported getters/setters, loads/stores, grow, memory.init and call_indirect; the scheduler interleaves the clients. After every operation all live instances, memory objects and tables are compared with the model: initial state (sizes, segment order, globals, table slots), start function exactly once and after the segments, persistence, isolation of defined state, binding of imports, reachability of '<module>_<name>' exports.",
+   text="Eight (thorough: 32) seeded variants of a generated module family - defined, imported or shared memory; defined or imported table; imported globals used as segment offsets and initialisers; overlapping, zero-length, last-byte and all-zero active data segments; a passive segment; element segments; optional start function with a host call - are translated by the current translator. Client tasks instantiate them (into zeroed or garbage-filled structs, as children of live instances, or again into the same struct after FreeInstance against other resolver objects) on own or shared resolver objects and call exported getters/setters, loads/stores, grow, memory.init and call_indirect; the scheduler interleaves the clients. After every operation all live instances, memory objects and tables are compared with the model: initial state (sizes, segment order, globals, table slots), start function exactly once and after the segments, persistence, isolation of defined state, binding of imports, reachability of '<module>_<name>' exports, and the instance's function export name table (every export name once, aliases and re-exported imports included, each entry leading to its function).",
    note="operations are atomic in the model (interleaving at operation boundaries); child instances only for variants without shared memory; a generated family, not arbitrary programs", ref="5/C06")
 E2 = "E2 simxl: every w2c2/*.c of the working tree (main renamed w2c2_main) run in a forked child per simulated run on a tmpfs scratch tree; pthread pool under the simcore baton scheduler (preemption at sync ops, I/O calls, instrumented loads/stores), simulated CPU count/exit, fopen/fclose faults, record-and-refuse monitor on mutating libc calls; clang ASan + memory-related UBSan checks"
 CHECKS.update({
  "C09": dict(engine="simxl", cat="exploration", tech="deterministic simulation: seeded schedules of the producer/worker pool (random walk + PCT, spurious wake-ups, thread-create failures) with byte-for-byte comparison of every output set against the unpreempted single-thread run; auxiliary compile and spec-assert behaviour samples for option variants, token identity of pretty and compact output, and a syntax-only compile of the default and -m output, for every corpus and spec module",
    text="The translator's worker pool runs under the seeded scheduler for every sampled (module, option combination, output path): termination, exit status, the exact output file-name set and byte-identity of all files with the canonical '-t 1' unpreempted run decide schedule/thread-count independence. Because option equivalence of behaviour is not a schedule property, a stratified sample of canonical outputs is additionally compiled file-by-file and spec-suite modules are built and executed under 7 option variants (pretty, -f, -g, -m, gnu-ld, threads) with their assert transcripts compared to the default build.",
-   note="interleavings are sequentially consistent; behaviour equivalence across options is sampled (not simulated): 6 modules quick / 80 thorough, stratified by data-segment shape; build-configuration variants (no pthreads, bundled getopt/libgen) are not part of the quick tier", ref="5/C09"),
- "C10": dict(engine="simxl", cat="fault_enumeration", tech="deterministic simulation with torn-input fault enumeration: every run serves only the first k bytes of a valid module (k sampled; exhaustive for small modules in the thorough tier) under a seeded option/schedule swarm, ASan/UBSan-memory as oracle",
+   note="interleavings are sequentially consistent; behaviour equivalence across options is sampled (not simulated): 6 modules quick / 80 thorough, stratified by data-segment shape; build-configuration variants (no pthreads, bundled getopt/libgen) must emit identical files: 10 modules quick, the whole corpus thorough", ref="5/C09"),
+ "C10": dict(engine="simxl", cat="fault_enumeration", tech="deterministic simulation with torn-input fault enumeration: every run serves only the first k bytes of a valid module (k sampled, plus every section boundary; exhaustive for small modules in the thorough tier) under a seeded option/schedule swarm, ASan/UBSan-memory as oracle",
    text="Valid modules (96 seeded synthetic ones with wild UTF-8/punctuation/long names, many locals, deep nesting, duplicated bodies + 48 spec-suite modules + coremark) and their proper prefixes are translated under seeded option combinations and worker schedules, and every one of the 874 valid spec-suite modules (committed list with content hashes, not 'what the translator accepts today') is translated once per run; the run must exit 0 (valid) or exit 0 / non-zero with a diagnostic (prefix), never die on a signal, sanitizer report, assertion or hang.",
    note="allocation failures are not injected (outside the statement); fopen/fclose failures, short freads and worker-thread creation failures are injected into part of the untruncated runs, under which only memory safety and termination are judged; sanitizer set = address + null/bounds/alignment/object-size/nonnull (memory operations), not arithmetic UB", ref="5/C10"),
  "C20": dict(engine="simxl", cat="exploration", tech="deterministic simulation: invariant monitor at every mutating libc call plus before/after diff of a real scratch tree, across seeded options, path shapes, near-miss decoy files, worker schedules and fopen/fclose faults",
-   text="Each run builds a scratch tree with the input (sometimes inside the output directory), a reference module and 4-13 decoy files whose names nearly match the implementation-file pattern, inside and outside the output directory; the translator may create/overwrite only out.c, its header, [sd]<10 digits>.c and 'datasegments' in the output directory and, with -c, delete only names matching the pattern - checked at the call and by diffing the tree, also after injected fopen/fclose errors. Output directories include names that are glob patterns with sibling directories they match.",
+   text="Each run builds a scratch tree with the input (sometimes inside the output directory), a reference module and 4-13 decoy files whose names nearly match the implementation-file pattern, inside and outside the output directory; the translator may create/overwrite only out.c, its header, [sd]<10 digits>.c and 'datasegments' in the output directory and, with -c, delete only names matching the pattern - checked at the call and by diffing the tree, also after injected fopen/fclose errors. Output directories include names that are glob patterns with sibling directories they match and one-character names; a quarter of the runs use the translator built with the project's own dirname/basename/getopt/strdup (hosts without libgen/getopt).",
    note="calls are seen at libc entry points; a raw syscall would only be caught by the tree diff", ref="5/C20"),
 })
 
@@ -59,12 +59,12 @@ CHECKS.update({
    note="reference is the Linux kernel (pwritev/preadv/lseek/fstat); O_APPEND+pwrite, IOV_MAX and error precedence are excluded as POSIX-ambiguous", ref="5/C12"),
  "C13": dict(engine="simwasi", cat="exploration", tech="deterministic simulation: seeded descriptor-churn histories (open/close storms, double close, closed and never-issued numbers in every implemented call of both ABIs) with EMFILE injection, descriptor-table model + host-call log + ASan as oracles",
    text="A model of the descriptor table (live set, pre-opens, stdio incl. closed standard streams; registration failures through a failing path copy) decides: path_open never returns a live number, dead numbers give EBADF in all 23 implemented descriptor-taking calls and reach no host call, pre-opens report their registered path, descriptors 1/2/0 reach host fds 1/2/0; AddressSanitizer reports (double free, use after free of the descriptor path) are violations of this property.",
-   note="unimplemented (ENOSYS) calls are not swept; directory-taking calls on descriptors 0-2 are not generated", ref="5/C13"),
+   note="unimplemented (ENOSYS) calls are not swept; descriptor 2 is never closed (it carries the sanitizer output)", ref="5/C13"),
  "C14": dict(engine="simwasi", cat="exploration", tech="deterministic simulation: seeded path/readdir histories with DT_UNKNOWN buggify and opendir/readdir errors; tree-effect oracle against the mirror tree after every operation, host-path seam check, readdir listing protocol rules",
    text="Create/remove directory, unlink, rename, symlink, readlink, stat with relative/absolute/empty/over-long (around and beyond PATH_MAX) non-NUL-terminated guest paths: errno and the whole tree must equal the mirror after each call, rejected paths change nothing and reach no host call, ASan guards the PATH_MAX buffers. fd_readdir listings with buffers from 24 bytes must deliver every entry exactly once with correct d_next/d_ino/d_namlen/d_type, resume from any returned cookie and restart at cookie 0. Concurrent phases: 2-3 simulated tasks create/rename/link/remove their own names below one directory at the same time.",
    note="paths whose resolved length is within 2 bytes below PATH_MAX are not generated; directory descriptors opened before a rename/rmdir are not judged afterwards", ref="5/C14"),
  "C15": dict(engine="simwasi", cat="exploration", tech="deterministic simulation: simulated clock and entropy source, recorded exit, seeded scheduler over concurrent thread-spawn callers with thread-create failures",
-   text="args/environ vectors of arbitrary bytes at unaligned addresses must be reproduced exactly; clock_time_get must store sec*1e9+nsec of the simulated clock (seconds up to 2^33, nsec up to 999999999), stay monotonic, reject unknown ids with EINVAL and translate injected errors; random_get must succeed for 0..2^20 bytes and leave exactly the supplied entropy in exactly the requested range; proc_exit must end the process with the status and no later operation; 1-4 simulated threads spawn concurrently: distinct positive ids, wasi_thread_start once per spawn with that id on the shared memory, negative result without the export or on injected create failure; spawns are mixed with spawns from two further in-process modules (own wasi_thread_start / none), each of which must get its own module's behaviour.",
+   text="args/environ vectors of arbitrary bytes at unaligned addresses, also ending exactly at the end of memory, must be reproduced exactly; clock_time_get must store sec*1e9+nsec of the simulated clock (seconds up to 2^33, nsec up to 999999999), stay monotonic, reject unknown ids with EINVAL and translate injected errors; random_get must succeed for 0..2^20 bytes and leave exactly the supplied entropy in exactly the requested range; proc_exit must end the process with the status and no later operation; 1-4 simulated threads spawn concurrently: distinct positive ids, wasi_thread_start once per spawn with that id on the shared memory, negative result without the export or on injected create failure; spawns are mixed with spawns from two further in-process modules (own wasi_thread_start / none), each of which must get its own module's behaviour.",
    note="realtime clock jumps are not injected; thread-spawn schedules are sequentially consistent interleavings", ref="5/C15"),
 })
 
